@@ -24,6 +24,14 @@ CHECKS = {
                      'positions recomputed from the input text alone (only \\n, \\r\\n, \\r break lines; leading BOM zero width; '
                      'zero-width indentation error leaves sit at the next real leaf).',
                 note='TLC; recorder.', ref='2.4, 3 C03'),
+    'C04': dict(level=MC, tech='TLA+ generator EditHistory (TLC enumerates/simulates edit histories) + A-spec DiffTrace evaluated by TLC on the replayed histories; final trees through Tree',
+                text='Every single edit of base documents (exhaustive over a sub-pool) and simulated 6-edit histories with undo, '
+                     'BOM and newline toggles are rendered (LF/CRLF, 2/4-space) and fed to parse(diff_cache=True); after every '
+                     'update TLC checks: no exception, code = new text, dump = dump of a fresh parse, used-names index equals '
+                     'the fresh one (index warmed before each update), plus diagnostic clauses on the copy/parse log; the final '
+                     'tree of each history satisfies the Tree clauses (tiling, positions, parent links).',
+                note='TLC; Fresh = the real non-incremental parser; copy/parse events come from the existing LOG.debug lines '
+                     '(diagnostic only, reported as MODEL-DRIFT).', ref='2.6, 3 C04'),
     'C05': dict(level=MC, tech='TLA+ B-spec ParserB (NodesConform at every closing node) + ConformTrace: TLC validates every node of real trees against the position automaton of the rule text',
                 text='ParserB (the parser engine transcribed on the real exported tables) is run by TLC on simulated valid / '
                      'broken / arbitrary token streams with NodesConform checked in every state; the streams are rendered to '
